@@ -692,7 +692,17 @@ func safetySweep(cc *checkCtx, w *World) *extraResult {
 		}
 		toSolve = append(toSolve, o)
 	}
-	solveRobust(toSolve, opts)
+	// sites acknowledged as unproved get one attempt (thorough tier); only the others are retried under load
+	var acknowledged, others []*Obligation
+	for _, o := range toSolve {
+		if _, ok := baseline[sr.keys[o]]; ok {
+			acknowledged = append(acknowledged, o)
+		} else {
+			others = append(others, o)
+		}
+	}
+	solveAll(acknowledged, opts)
+	solveRobust(others, opts)
 	var unprovedBaseline []string
 	proved := 0
 	for _, o := range sr.obls {
